@@ -263,9 +263,11 @@ enum Pre {
 
 /// Common prologue of every simulated sandbox call: scheduling gate, sequence number,
 /// crash point, fault lookup.
-/// No operation of the compiler performs anywhere near this many sandbox calls (the largest
-/// take a few thousand): a process that does is running away (e.g. retrying a read for ever).
-pub const SYSCALL_LIMIT: u32 = 1_000_000;
+/// A backstop only: with one-byte chunked I/O a legitimate link of a large project performs
+/// more than a million sandbox calls (a first limit of 10^6 raised two false `hang` alarms on
+/// the unchanged tree at seed 1); a process that spins is normally ended by the CPU-time watchdog,
+/// and its event log is capped, so it cannot exhaust memory before that.
+pub const SYSCALL_LIMIT: u32 = 200_000_000;
 
 fn pre(c: &mut SimCtx, call: Call) -> Pre {
     if c.abandoned.load(Ordering::Relaxed) {
